@@ -93,6 +93,15 @@ class LogModel:
         self.__init__()
 
 
+def _dec(data):
+    """Surviving bytes as text for the model.  A kill can split a multi-byte character; the fragment belongs to the
+    in-flight last line, so it is dropped here (the reader is still given the raw bytes)."""
+    try:
+        return data.decode('utf-8')
+    except UnicodeDecodeError:
+        return data.decode('utf-8', 'ignore')
+
+
 def _split_name(name):
     base = os.path.basename(name)
     stem, ext = os.path.splitext(base)
@@ -105,7 +114,7 @@ class CosimEngine(Engine):
     max_ops = 16
     expected_probes = ['restart_rotation', 'rotation_depth_ge_2', 'rotation_depth_ge_3', 'kill_after_mem_banner', 'kill_in_header',
                        'kill_mid_row', 'kill_in_step_token', 'kill_row_boundary', 'kill_in_loop_line', 'kill_in_perf_table',
-                       'kill_in_banner', 'banner_in_flight', 'kill_lost_everything', 'error_exit', 'read_truncated_log', 'read_append_true_nonempty',
+                       'kill_in_banner', 'banner_in_flight', 'kill_inside_a_multibyte_character', 'kill_lost_everything', 'error_exit', 'read_truncated_log', 'read_append_true_nonempty',
                        'read_append_false_nonempty', 'read_same_file_twice', 'short_read_source', 'buffered_source',
                        'path_source', 'text_source', 'real_file_object_source', 'crlf_log', 'io_error_read_raised', 'path_of_a_file_that_does_not_exist_yet', 'differential_source_kinds', 'flatten_first_checked',
                        'flatten_last_checked', 'flatten_all_checked', 'flatten_overlap_checked',
@@ -117,9 +126,9 @@ class CosimEngine(Engine):
             'stub LAMMPS behind it (script or script file, restart script or not, one of six log-file names, a log file in a sub-directory, or no log file, '
             'screen on/off, mpi prefix, suffix); the stub prints a log from the documented layout (16 version banners, either '
             'memory banner, 0-4 run/minimize blocks, Step plus 0-11 keywords from a 68-keyword vocabulary or generated compute/fix/variable IDs over [A-Za-z0-9_] with optional indices, Step anywhere, '
-            'six row formats, 0-60 rows, integers beyond 2^31, non-finite tokens, echoed script lines including empty and '
-            'whitespace-only ones, balanced quotes, warnings in the preamble only, new-style / old-style / no timing breakdown, '
-            'minimisation statistics) and ends cleanly, with ERROR + exit 1, or is killed after b bytes (13 placement classes, '
+            'six row formats, 0-60 rows, integers beyond 2^31, non-finite tokens, echoed script lines including empty, '
+            'whitespace-only and non-ASCII ones (a kill may land between the bytes of one character), balanced quotes, warnings in the preamble only, new-style / old-style / no timing breakdown, '
+            'minimisation statistics) and ends cleanly, with ERROR + exit 1, or is killed after b bytes (14 placement classes, '
             'half of them aimed at structure boundaries) with the disk keeping whole stdio buffers (512-8192 B), whole lines, '
             'or exactly b bytes. Step ranges follow LAMMPS restarts: consecutive blocks share their boundary step or are '
             'disjoint; a restart starts on a step the surviving log printed (same lattice) or beyond everything it printed; one '
@@ -382,7 +391,7 @@ class CosimEngine(Engine):
             return data, rd['screen'], 0, None, rd
         if fault['kind'] == 'error':
             return data, rd['screen'], 1, 'error', rd
-        off = fl.place_kill(rd['marks'], fault['place'], fault['u1'], fault['u2'])
+        off = fl.place_kill(rd['marks'], fault['place'], fault['u1'], fault['u2'], data)
         surv = fl.survive(data, off, fault['mode'], fault['bufsize'])
         if surv in self._fullof and self._fullof[surv] != data:
             self._fullof[surv] = None
@@ -413,6 +422,8 @@ class CosimEngine(Engine):
         if len(surv) == 0:
             ctx.probe('kill_lost_everything')
         text = surv.decode('utf-8', 'replace')
+        if _dec(surv).encode('utf-8') != surv:
+            ctx.probe('kill_inside_a_multibyte_character')
         if text and not text.endswith('\n'):
             # classify where the tear is
             off = len(surv)
@@ -449,9 +460,12 @@ class CosimEngine(Engine):
     def _make_source(self, ctx, st, src, data):
         kind = src['kind']
         st['nsynth'] += 1
-        text = data.decode('utf-8')
+        text = _dec(data)
         if src['from'] == 'future':
             return src['name'], (lambda: None), 'path'
+        whole = text.encode('utf-8') == data
+        if kind == 'text' and not whole:
+            kind = 'bytes'          # a str cannot carry half a character: this caller holds bytes
         if kind in ('pathobj', 'fileobj', 'rawfile'):
             if src['from'] == 'file':
                 fn = src['name']
@@ -481,7 +495,7 @@ class CosimEngine(Engine):
             fail_at = None
             if src.get('ioerr') and kind in ('chunked', 'buffered') and len(data) > 0:
                 fail_at = min(len(data) - 1, int(src['ioerr']['u'] * len(data)))
-            obj, closer, stream = streams.make_source(kind, text, st['scratch'], 'ext-%d.log' % st['nsynth'],
+            obj, closer, stream = streams.make_source(kind, text if whole else data, st['scratch'], 'ext-%d.log' % st['nsynth'],
                                                       chunks=src['chunks'], bufsize=src['bufsize'], fail_at=fail_at,
                                                       fail_once=bool(src.get('ioerr') and src['ioerr'].get('once')))
             st['last_stream'] = stream
@@ -510,7 +524,7 @@ class CosimEngine(Engine):
             b = p['blocks'][-1]
             full = getattr(self, '_fullof', {}).get(text.encode('utf-8'))
             if full:
-                ftext = full.decode('utf-8')
+                ftext = _dec(full)
                 off = text.rfind('\n') + 1
                 end = ftext.find('\n', off)
                 line = ftext[off:end if end >= 0 else len(ftext)]
@@ -773,15 +787,15 @@ class CosimEngine(Engine):
         if subdir:
             lognum = len(series_prev)
             for i, h in enumerate(series_prev):
-                self._model_add(ctx, model, h.decode('utf-8'), 'invocation-%d' % i)
+                self._model_add(ctx, model, _dec(h), 'invocation-%d' % i)
         for i in range(1, (0 if subdir else lognum) + 1):
             fn = '%s-%d%s' % (stem, i, ext)
-            self._model_add(ctx, model, files[fn].decode('utf-8'), fn)
+            self._model_add(ctx, model, _dec(files[fn]), fn)
         if op['screen']:
             self._model_add(ctx, model, screen, 'screen')
             ctx.probe('screen_output_read')
         else:
-            self._model_add(ctx, model, surv.decode('utf-8'), name)
+            self._model_add(ctx, model, _dec(surv), name)
             ctx.probe('logfile_read_by_run')
         self._check_log(ctx, out, model, 'run() result')
         if lognum >= 1:
@@ -790,7 +804,7 @@ class CosimEngine(Engine):
                 ctx.probe('recovery_after_crash_in_one_call')
         self._pool_add(st, out, model)
         ctx.sig('invoke', len(files), 'clean', op['restart'], op['screen'], len(op['spec']['blocks']), lognum,
-                tuple(len(lm.parse(files[f].decode('utf-8'))['blocks']) for f in sorted(files)))
+                tuple(len(lm.parse(_dec(files[f]))['blocks']) for f in sorted(files)))
 
     def _pool_add(self, st, log, model):
         if len(st['logs']) >= MAX_LOGS:
@@ -806,7 +820,9 @@ class CosimEngine(Engine):
         st['last_data'] = data
         st['last_stream'] = None
         obj, closer, kind = self._make_source(ctx, st, src, data)
-        text = data.decode('utf-8')
+        text = _dec(data)
+        if text.encode('utf-8') != data:
+            ctx.probe('kill_inside_a_multibyte_character')
         try:
             if ctor:
                 ok, out = ctx.sut(lmp.Log, obj)
